@@ -50,8 +50,8 @@ func (e *tieEnc) defval(typ, expr string) string {
 		return "N"
 	}
 	if strings.Contains(strings.ToUpper(expr), "CURRENT_") {
-		e.skip = "nondeterministic-default"
-		return "N"
+		// not a constant: a non-NULL placeholder; the column is masked on both sides
+		return valTok("'?'")
 	}
 	q, err := evalDefault(e.ctx, typ, expr)
 	if err != nil {
@@ -66,6 +66,9 @@ func (e *tieEnc) stateCol(c ColInfo) {
 	dk := "0"
 	if c.Dflt != "" {
 		dk = "1"
+	}
+	if strings.Contains(strings.ToUpper(c.Dflt), "CURRENT_") {
+		dk = "2"
 	}
 	e.add(hx(c.Name), hx(normType(c.Type)), b01(c.NotNull), dk, e.defval(c.Type, c.Dflt), b01(c.Hidden >= 2), b01(c.Hidden == 3), "0", "0")
 }
@@ -259,7 +262,7 @@ func tieObs(before, after *Dump, errClass string) []string {
 	case "refused-arity":
 		return []string{"res EArity"}
 	case "refused-unique", "refused-check", "refused-fk", "refused-fk-mismatch", "refused-strict-type",
-		"refused-no-such-index", "refused-default-type", "refused-fkcheck-scan", "refused-datatype":
+		"refused-no-such-index", "refused-default-type", "refused-fkcheck-scan", "refused-datatype", "refused-view", "refused-trigger":
 		// constraints the abstract engine does not model: the run is left to the oracle
 		return nil
 	default:
@@ -274,11 +277,13 @@ func tieObs(before, after *Dump, errClass string) []string {
 		t := after.Tables[n]
 		tb := before.Tables[n]
 		var cols []string
-		mask := make([]int, len(t.Cols)) // 0 none, 1 declared type changed, 2 generated
+		mask := make([]int, len(t.Cols)) // 0 none, 1 declared type changed, 2 generated, 3 non-constant default
 		for i, c := range t.Cols {
 			cols = append(cols, hx(c.Name))
 			if c.Hidden >= 2 {
 				mask[i] = 2
+			} else if strings.Contains(strings.ToUpper(c.Dflt), "CURRENT_") {
+				mask[i] = 3
 			} else if tb != nil {
 				if bi := tb.colIdx(c.Name); bi >= 0 && normType(tb.Cols[bi].Type) != normType(c.Type) {
 					mask[i] = 1
